@@ -283,16 +283,19 @@ def replay_judge(judge):
         how = getattr(o, "replay", None)
         if how is None:
             return judge(o)
-        if o.first[0] == "return" and o.first_after != o.first:
+        if o.first[0] == "return" and o.first_after != o.first_was:
             return ("a later call changes the result an earlier call handed out",
-                    f"first result {o.first!r}; after the call was repeated it is {o.first_after!r}")
-        if how == "same" and o.second != o.first:
+                    f"first result {o.first_was!r}; after the call was repeated it is {o.first_after!r}")
+        if how == "same" and o.second != o.first_was:
             return ("repeating the call in the same state gives another result",
                     f"first {o.first!r}, second {o.second!r}")
         if how == "epoch" and o.second != o.cold:
             return ("a memoised result is replayed although the state it was computed in has changed",
                     f"the repeated call gives {o.second!r}; computed anew in the current state it is {o.cold!r}")
-        return judge(o)
+        # (the contract itself was decided on the single call of the case, for every state: a result equal to that
+        # call's - or to a recomputation's - needs no second verdict, and the judges' look at how a result came
+        # about would not fit a call that found it memoised)
+        return None
     return wrapped
 
 
@@ -326,8 +329,19 @@ class CaseRunner:
                 if (w.state in dirs and w.kind in ("item-store", "mutcall")) or w.op == "register_item":
                     decl.add(w.fi.qualname)
             self._declaring = decl
-        reach = cg.reachable_from([fi.qualname]) | {fi.qualname}
-        return bool(reach & self._declaring)
+        # (calls resolved by name, through self / cls and module.function: a method called on some other object is
+        # not taken to be every method of that name)
+        from .anchors import _direct_callees
+        seen, todo = [], [fi]
+        while todo:
+            f = todo.pop()
+            if any(f is g for g in seen):
+                continue
+            seen.append(f)
+            if f.qualname in self._declaring:
+                return True
+            todo.extend(_direct_callees(self.prog, f))
+        return False
 
     def replayable(self, fi: FuncInfo) -> bool:
         """Does the function (or anything it reaches) keep something from one call to the next - a memoising
